@@ -113,7 +113,7 @@ R4 = {
 R5 = {
  "C01": " LocalDate.max/min must follow the day line on every walked pair and every month boundary.",
  "C02": " Every named route to a calendar (static accessors, Hebrew/Islamic factories with every argument combination) must hand out the documented calendar object.",
- "C03": " Date-dependent tzinfo objects (zoneinfo zones around every transition with both folds, a user-defined tzinfo) through Instant.from_aware_datetime; inexact float arguments (tiny magnitudes, negative non-dyadic values) with normal-form / sign-symmetry / one-rounding-error laws. Offset.from_timedelta at every whole second +- 1 us / +- 999999 us (truncation toward zero, range judged on the exact value).",
+ "C03": " Date-dependent tzinfo objects (zoneinfo zones around every transition with both folds, a user-defined tzinfo) through Instant.from_aware_datetime; inexact float arguments (tiny magnitudes, negative non-dyadic values) with normal-form / sign-symmetry / one-rounding-error laws. Offset.from_timedelta at whole seconds +- 1 us / +- 999999 us (every 7th second of the range in the quick tier, every second in the thorough tier; truncation toward zero, range judged on the exact value).",
  "C04": " Cache-order histories with the following / previous / +-512-period slot first for every transition on a period edge, and for every interval longer than 512 periods.",
  "C05": " 72 whole-day-skip user zones on month ends of several calendars checked in all 19 calendars; gaps of 24h40m / 26 h / 36 h swept at 10-minute steps with a local-value law for lenient results.",
  "C06": " A reduced set of the same cache-order histories judged against the independent decoder.",
